@@ -22,8 +22,13 @@ _MARK = re.compile(r"\{([~+\-,*])([^}]*)\}")
 
 INTRINSICS_1 = ["sin", "cos", "abs", "sqrt", "exp", "int", "real", "nint", "tan", "log",
                 # legacy specific names (13.6.1): intrinsics under both standards
-                "dsqrt", "float", "iabs", "dabs", "alog", "dble", "sngl", "dcos", "cabs", "ifix"]
-INTRINSICS_2 = ["mod", "atan2", "sign", "dim", "amod", "isign", "datan2", "idim"]
+                "dsqrt", "float", "iabs", "dabs", "alog", "dble", "sngl", "dcos", "cabs", "ifix",
+                # array / inquiry intrinsics called with the minimal argument count
+                "maxloc", "minloc", "maxval", "minval", "sum", "product", "size", "shape", "lbound", "ubound", "count",
+                "any", "all", "transpose", "huge", "tiny", "epsilon", "kind", "floor", "ceiling", "aint", "anint",
+                "len_trim", "allocated", "associated", "present", "selected_int_kind", "bit_size", "not"]
+INTRINSICS_2 = ["mod", "atan2", "sign", "dim", "amod", "isign", "datan2", "idim", "dot_product", "matmul", "reshape",
+                "modulo", "iand", "ior", "ieor", "ishft", "btest", "scan", "verify", "index", "selected_real_kind", "cmplx"]
 INTRINSICS_N = ["max", "min", "amax1", "min0", "dmax1"]
 F08_INTRINSICS = {"erf", "gamma", "shiftl", "shiftr", "shifta"}
 
